@@ -16,22 +16,44 @@ build() { # $1 = profile flag(s)
         exit 2
     fi
 }
-# thorough tier of C01 / C17 (fz_chain) and C08 / C15 (fz_nopanic): a fixed-work libFuzzer campaign with the property's oracle
+# thorough tier of C01 / C17 (fz_chain), C08 / C15 (fz_nopanic) and C02-C07, C10-C14 (fz_single): a fixed-work libFuzzer campaign with the property's oracle
 # inside the target. Prints a VIOLATION line (through `vcheck fuzz-replay`, which also writes the JSON replay) and returns 1 if
 # the campaign found an unlisted failure; timeouts / OOM / build problems are inconclusive (2), never a violation.
 fuzz_campaign() { # $1 = property
-    case "$1" in C01|C17) tgt=fz_chain;; C08|C15) tgt=fz_nopanic;; *) return 0;; esac
-    runs="${VERIF_FUZZ_RUNS:-600000}"
+    case "$1" in C01|C17) tgt=fz_chain;; C08|C15) tgt=fz_nopanic;; C02|C03|C04|C05|C06|C07|C10|C11|C12|C13|C14) tgt=fz_single;; *) return 0;; esac
     seed="${VERIF_SEED:-20261002}"; case "$1" in C17|C08) seed=$((seed + 1));; esac
     [ "$seed" -eq 0 ] && seed=1
-    out=$(cd "$H" && cargo +nightly fuzz build "$tgt" 2>&1) || { echo "$out" | tail -n 30 >&2; echo "HARNESS-ERROR: cargo fuzz build failed" >&2; return 2; }
-    corp="$H/fuzz/corpus_tmp.$$"; art="$H/fuzz/artifacts_tmp.$$/"
-    rm -rf "$corp" "$art"; mkdir -p "$corp" "$art"; cp "$H/fuzz/seeds/$tgt/"* "$corp/" 2>/dev/null
-    log=$(cd "$H" && FZ_PROP="$1" cargo +nightly fuzz run "$tgt" "$corp" -- -runs="$runs" -seed="$seed" -max_len=2048 -len_control=0 -timeout=60 -rss_limit_mb=4096 -artifact_prefix="$art" -print_final_stats=1 2>&1)
-    st=$?
-    execs=$(echo "$log" | grep -a -E "stat::number_of_executed_units" | awk '{print $2}')
-    feats=$(echo "$log" | grep -a -E "DONE|cov:" | tail -n 1 | sed 's/.*cov: \([0-9]*\) ft: \([0-9]*\).*/cov=\1 ft=\2/')
-    export VERIF_FUZZ_NOTE="libFuzzer $tgt FZ_PROP=$1: runs=${execs:-?} seed=$seed $feats exit=$st"
+    corp="$H/fuzz/corpus_tmp.$$"; art="$H/fuzz/artifacts_tmp.$$/"; wd="$H/fuzz/run_tmp.$$"
+    rm -rf "$corp" "$corp".* "$art" "$wd"; mkdir -p "$art" "$wd"
+    if [ "$tgt" = fz_single ]; then
+        # exact-arithmetic oracles cost 5-150 ms per case under coverage instrumentation: eight independent campaigns (own
+        # corpus, seed + i) run side by side, each a fixed number of runs chosen per property for roughly 5-8 minutes in all.
+        # /repo has no unsafe code and neither has the harness: built without a sanitizer, in a target directory of its own.
+        case "$1" in C02) per=4000;; C03) per=10000;; C04) per=2500;; C05) per=20000;; C06) per=6000;; C07) per=40000;; C10) per=2500;; C11) per=1500;; C12) per=8000;; C13) per=2500;; *) per=2500;; esac
+        per="${VERIF_FUZZ_RUNS_SINGLE:-$per}"
+        out=$(cd "$H" && cargo +nightly fuzz build -s none --target-dir "$H/fuzz/target_nosan" "$tgt" 2>&1) || { echo "$out" | tail -n 30 >&2; echo "HARNESS-ERROR: cargo fuzz build failed" >&2; return 2; }
+        bin="$H/fuzz/target_nosan/x86_64-unknown-linux-gnu/release/$tgt"
+        [ -x "$bin" ] || { echo "HARNESS-ERROR: $bin missing after the build" >&2; return 2; }
+        for i in 0 1 2 3 4 5 6 7; do
+            mkdir -p "$corp.$i"; cp "$H/fuzz/seeds/$tgt/"* "$corp.$i/" 2>/dev/null
+            ( FZ_PROP="$1" VERIF_DIR="$VERIF" "$bin" "$corp.$i" -runs="$per" -seed=$((seed + i)) -max_len=2048 -len_control=0 -timeout=120 -rss_limit_mb=4096 -artifact_prefix="$art" -print_final_stats=1 > "$wd/log.$i" 2>&1; echo $? > "$wd/st.$i" ) &
+        done
+        wait
+        log=$(cat "$wd"/log.* 2>/dev/null)
+        st=0; for i in 0 1 2 3 4 5 6 7; do s=$(cat "$wd/st.$i" 2>/dev/null || echo 99); [ "$s" -ne 0 ] && st=$s; done
+        execs=$(echo "$log" | grep -a -E "stat::number_of_executed_units" | awk '{s+=$2} END {print s}')
+        feats=$(echo "$log" | grep -a -E "DONE" | sed 's/.*cov: \([0-9]*\) ft: \([0-9]*\).*/\1 \2/' | sort -n | tail -n 1 | awk '{print "cov=" $1 " ft=" $2}')
+        export VERIF_FUZZ_NOTE="libFuzzer $tgt FZ_PROP=$1: 8 campaigns, runs=${execs:-?} in all, seeds $seed..$((seed + 7)), best $feats, exit=$st"
+    else
+        runs="${VERIF_FUZZ_RUNS:-600000}"
+        out=$(cd "$H" && cargo +nightly fuzz build "$tgt" 2>&1) || { echo "$out" | tail -n 30 >&2; echo "HARNESS-ERROR: cargo fuzz build failed" >&2; return 2; }
+        mkdir -p "$corp"; cp "$H/fuzz/seeds/$tgt/"* "$corp/" 2>/dev/null
+        log=$(cd "$H" && FZ_PROP="$1" cargo +nightly fuzz run "$tgt" "$corp" -- -runs="$runs" -seed="$seed" -max_len=2048 -len_control=0 -timeout=60 -rss_limit_mb=4096 -artifact_prefix="$art" -print_final_stats=1 2>&1)
+        st=$?
+        execs=$(echo "$log" | grep -a -E "stat::number_of_executed_units" | awk '{print $2}')
+        feats=$(echo "$log" | grep -a -E "DONE|cov:" | tail -n 1 | sed 's/.*cov: \([0-9]*\) ft: \([0-9]*\).*/cov=\1 ft=\2/')
+        export VERIF_FUZZ_NOTE="libFuzzer $tgt FZ_PROP=$1: runs=${execs:-?} seed=$seed $feats exit=$st"
+    fi
     rc=0
     if echo "$log" | grep -a -q "FUZZ-VIOLATION"; then
         echo "$log" | grep -a -A2 "FUZZ-VIOLATION" | head -n 6 >&2
@@ -46,7 +68,7 @@ fuzz_campaign() { # $1 = property
         echo "$log" | tail -n 15 >&2
         echo "INCONCLUSIVE: libFuzzer campaign ended with status $st (timeout / OOM / crash outside the oracle)" >&2; rc=2
     fi
-    rm -rf "$corp" "$art"
+    rm -rf "$corp" "$corp".* "$art" "$wd"
     return $rc
 }
 needs_relassert() { case "$1" in C15) return 0;; *) return 1;; esac; }
@@ -72,7 +94,10 @@ case "$1" in
         frc=0
         if [ "$tier" = thorough ]; then
             export VCHECK_RELASSERT_BIN="$H/target/relassert/vcheck"
-            case "$1" in C01|C08|C15|C17) build "--profile relassert"; fuzz_campaign "$1"; frc=$?;; esac
+            case "$1" in
+                C01|C08|C15|C17) build "--profile relassert"; fuzz_campaign "$1"; frc=$?;;
+                C02|C03|C04|C05|C06|C07|C10|C11|C12|C13|C14) fuzz_campaign "$1"; frc=$?;;
+            esac
         fi
         "$H/target/release/vcheck" "$1" --tier "$tier"; vrc=$?
         if [ $vrc -eq 1 ] || [ $frc -eq 1 ]; then exit 1; fi
